@@ -102,7 +102,7 @@ def extract(repo="/repo", config="all", target_tag=None, keep_target=True):
     if os.path.exists(meta_p):
         os.utime(out, None)
         return out, json.load(open(meta_p))
-    tag = target_tag or config
+    tag = target_tag or os.environ.get("NUTS_VERIF_TARGET_TAG") or config
     target = os.path.join(CACHE, "target-%s" % tag)
     os.makedirs(target, exist_ok=True)
     with open(os.path.join(CACHE, "target-%s.lock" % tag), "w") as lk:
@@ -158,12 +158,24 @@ def extract(repo="/repo", config="all", target_tag=None, keep_target=True):
         return out, meta
 
 
-def _gc(keep=40):
-    """Keep the fact cache bounded (oldest entries first)."""
+def _gc(keep=120):
+    """Keep the fact cache bounded (oldest entries first). Other processes may remove entries concurrently."""
     d = os.path.join(CACHE, "facts")
-    ents = [os.path.join(d, e) for e in os.listdir(d) if ".tmp." not in e]
-    ents.sort(key=lambda p: os.path.getmtime(p))
-    for p in ents[:-keep]:
+    ents = []
+    try:
+        names = os.listdir(d)
+    except OSError:
+        return
+    for e in names:
+        if ".tmp." in e:
+            continue
+        p = os.path.join(d, e)
+        try:
+            ents.append((os.path.getmtime(p), p))
+        except OSError:
+            continue
+    ents.sort()
+    for _m, p in ents[:-keep]:
         shutil.rmtree(p, ignore_errors=True)
 
 
